@@ -131,21 +131,29 @@ Definition conf_obj_gen (extra_ok : bool) (rec : gtype -> list scope -> json -> 
 
 Definition conf_obj_with := conf_obj_gen false.
 
-(* CompleteValue, parametric in the leaf-value predicate [leafp] and in [extra_ok] *)
-Fixpoint conf_val_gen (leafp : schema -> string -> tdef -> json -> bool) (extra_ok : bool)
+(* the runtime types considered at an abstract position.  [self_ok] additionally admits an INTERFACE's own
+   name: no GraphQL execution reports it, but the Literal of the generated base class contains it
+   (finding F8), so the relaxed relation of Properties/C05.v has to *)
+Definition abs_candidates (self_ok : bool) (S : schema) (n : string) : list string :=
+  if self_ok
+  then (match lookup_type S n with Some (DInterface _ _) => [n] | _ => [] end) ++ possible_types S n
+  else possible_types S n.
+
+(* CompleteValue, parametric in the leaf-value predicate [leafp], in [extra_ok] and in [self_ok] *)
+Fixpoint conf_val_gen (leafp : schema -> string -> tdef -> json -> bool) (extra_ok self_ok : bool)
          (fuel : nat) (S : schema) (frs : list fragdef) (t : gtype) (scs : list scope) (j : json)
   : bool :=
   match fuel with
   | O => false
   | S fuel' =>
       let conf_obj (rt : string) (kv : list (string * json)) : bool :=
-        conf_obj_gen extra_ok (conf_val_gen leafp extra_ok fuel' S frs) S rt
+        conf_obj_gen extra_ok (conf_val_gen leafp extra_ok self_ok fuel' S frs) S rt
                      (collect_scopes fuel' S frs rt scs) kv in
       match t with
-      | TNonNull t' => match j with JNull => false | _ => conf_val_gen leafp extra_ok fuel' S frs t' scs j end
+      | TNonNull t' => match j with JNull => false | _ => conf_val_gen leafp extra_ok self_ok fuel' S frs t' scs j end
       | TList t' => match j with
                     | JNull => true
-                    | JArr l => forallb (conf_val_gen leafp extra_ok fuel' S frs t' scs) l
+                    | JArr l => forallb (conf_val_gen leafp extra_ok self_ok fuel' S frs t' scs) l
                     | _ => false end
       | TNamed n =>
           match j with
@@ -155,7 +163,7 @@ Fixpoint conf_val_gen (leafp : schema -> string -> tdef -> json -> bool) (extra_
               | Some (DObject _ _) => match j with JObj kv => conf_obj n kv | _ => false end
               | Some (DInterface _ _) | Some (DUnion _) =>
                   match j with
-                  | JObj kv => existsb (fun rt => conf_obj rt kv) (possible_types S n)
+                  | JObj kv => existsb (fun rt => conf_obj rt kv) (abs_candidates self_ok S n)
                   | _ => false end
               | Some d => leafp S n d j
               | None => false
@@ -165,15 +173,15 @@ Fixpoint conf_val_gen (leafp : schema -> string -> tdef -> json -> bool) (extra_
   end.
 
 (* the conformant responses: GraphQL's leaf coercion results, no extra keys *)
-Definition conf_val := conf_val_gen leaf_conf false.
+Definition conf_val := conf_val_gen leaf_conf false false.
 
 (* the data member of a response to an operation whose root type is root *)
-Definition conf_op_gen (leafp : schema -> string -> tdef -> json -> bool) (extra_ok : bool)
+Definition conf_op_gen (leafp : schema -> string -> tdef -> json -> bool) (extra_ok self_ok : bool)
            (fuel : nat) (S : schema) (frs : list fragdef) (root : string) (sels : list sel) (j : json)
   : bool :=
   match j with
   | JNull => false
-  | _ => conf_val_gen leafp extra_ok fuel S frs (TNonNull (TNamed root)) [(false, sels)] j
+  | _ => conf_val_gen leafp extra_ok self_ok fuel S frs (TNonNull (TNamed root)) [(false, sels)] j
   end.
 
-Definition conf_op := conf_op_gen leaf_conf false.
+Definition conf_op := conf_op_gen leaf_conf false false.
